@@ -102,8 +102,10 @@ AssignInsts(s, d) == {i \in SeqSet(s.defKids[d]) : s.instRef[i] # None /\ IsAssi
 WireName(s, w) ==     \* <<net name, bit position>> of a wire, or <<"", 0>> for none
     IF w = None \/ s.wireCable[w] = None THEN <<"", 0>>
     ELSE <<StripEsc(s.cabData[s.wireCable[w]].name), IndexIn(s.cabWires[s.wireCable[w]], w) - 1>>
+(* a module attribute: a design says it through the cell's user key k (written as the two sets (* A = k *) (* B = 1 *)) *)
+VCellAttr(d) == IF d.vattr # NoVal THEN d.vattr ELSE IF d.k = NoVal THEN "" ELSE "attr:A=" \o d.k \o ",B=1"
 VCell(s, d) ==
-    [name |-> StripEsc(s.defData[d].name),
+    [name |-> StripEsc(s.defData[d].name), cattr |-> VCellAttr(s.defData[d]),
      ports |-> [j \in DOMAIN s.defPorts[d] |-> PortCanon(s, s.defPorts[d][j])],
      insts |-> {VInst(s, i) : i \in {ii \in SeqSet(s.defKids[d]) : s.instRef[ii] = None \/ ~IsAssignDef(s, s.instRef[ii])}},
      nattr |-> {<<StripEsc(s.cabData[c].name), VAttrOf(s.cabData[c], FALSE)>> : c \in VCables(s, d)},
@@ -143,12 +145,18 @@ VlogReadClauses(pre, c, out, post, ret) ==
 (* an inferred black box has ports of undefined direction and no nets of its own; Verilog cannot say "undefined", *)
 (* the writer declares such ports inout: these cells themselves are not compared across a write-then-read step    *)
 (* (their instances and every bit they join are)                                                                   *)
+(* cells that hold no net of their own before the step (a primitive declared with its ports in the header, a cell   *)
+(* emptied by flatten): the writer declares their ports the ordinary way and the reader then gives every port its *)
+(* same-named net - nothing of the design is in those nets, the cells are left out of the comparison              *)
+NetlessCells(s, n) == {StripEsc(s.defData[d].name) : d \in {dd \in VDefs(s, n) : VCables(s, dd) = {} /\ s.defKids[dd] = <<>>}}
 InferredCells(s, n) == {StripEsc(s.defData[d].name) : d \in {dd \in VDefs(s, n) : \E p \in SeqSet(s.defPorts[dd]) : s.portAttr[p].dir = 0}}
 VlogRtClauses(pre, c, out, post, ret, r) ==
     IF c.op = "vlog_rt" THEN
       << <<"C04_ReaderAccepts", out = "ok" /\ r.reader_accepts>>,
          <<"C04_RoundTrip", (out = "ok" /\ r.reader_accepts /\ Len(ret) = 1) =>
-                WithoutCells(VCanon(post, ret[1]), InferredCells(pre, c.n)) = WithoutCells(VCanon(pre, c.n), InferredCells(pre, c.n))>> >>
+                LET skip == InferredCells(pre, c.n) \cup NetlessCells(pre, c.n) IN
+                /\ WithoutCells(VCanon(post, ret[1]), skip) = WithoutCells(VCanon(pre, c.n), skip)
+                /\ {x.name : x \in VCanon(post, ret[1]).cells} = {x.name : x \in VCanon(pre, c.n).cells}>> >>
     ELSE <<>>
 
 ---------------------------------------------------------------------------
